@@ -313,12 +313,13 @@ def spaces(tier):
         sp.append(Space("chain2-seq-fail-sigterm", make(2, ("run_experiment",), 1),
                         "2 sequential experiments t0 <- t1, each may fail, SIGINT or SIGTERM at every point", depth="marker",
                         tiers=("thorough",), preset={"e0_1": True, "p0": False, "p1": False}))
-        sp.append(Space("n2-all", make(2, graphs.ALL_KINDS, 2),
-                        "N=2, all kinds, edges, par bits, jobs 1..2, failing bits, SIGINT/SIGTERM, every point", depth="marker",
+        sp.append(Space("n2-all", make(2, graphs.ALL_KINDS, 2, sigterm_bit=False),
+                        "N=2, all kinds, edges, par bits, jobs 1..2, failing bits, SIGINT at every point", depth="marker",
                         tiers=("thorough",)))
-        sp.append(Space("n3-exp-cmd-j2", make(3, ("run_experiment", "run_command"), 2, sigterm_bit=False),
-                        "N=3, kinds {experiment, command}, every edge set, par bits, jobs 1..2, failing bits, SIGINT at every point",
-                        depth="marker", tiers=("thorough",)))
+        sp.append(Space("n3-exp-cmd-exp-j2", make(3, ("run_experiment", "run_command"), 2, sigterm_bit=False),
+                        "N=3, kinds (experiment, command, experiment), every edge set, par bits, jobs 1..2, all children succeed, SIGINT at every point",
+                        depth="marker", tiers=("thorough",),
+                        preset={"k0": 0, "k1": 1, "k2": 0, "bad0": False, "bad1": False, "bad2": False}))
     return sp
 
 
